@@ -447,6 +447,15 @@ def _dominated_by_membership(cfg, node, wr, want_present: bool) -> bool:
             continue
         if ast.unparse(t.ast.left) != elem:
             continue
+        # the container tested is the container written: for a write into `REG[k]` (path ::REG[*]) the test has to be
+        # on `REG[..]`, not on `REG` itself (whose members are the keys)
+        cpath = getattr(wr, 'path', None)
+        if isinstance(cpath, str) and cpath.startswith('::'):
+            ctxt = ast.unparse(t.ast.comparators[0]).replace(' ', '')
+            regroot = cpath[2:].split('[')[0]
+            # only the registry itself spelled with the wrong depth is refused (a local alias of the slot is fine)
+            if ctxt.split('[')[0] == regroot and ('[' in cpath) != ('[' in ctxt):
+                continue
         present_on_true = isinstance(op, ast.In)
         for succ, lab in t.succ:
             if lab not in (True, False):
